@@ -1,2 +1,617 @@
-(* C20 — stub *)
+(* C20 -- proofs.  Structure:
+   1. association lists, byte case mapping
+   2. facts about the specification alone (round trip, case-insensitivity, exact acceptance set)
+   3. soundness of [checker]: any tables that pass it make the model of level.go equal to the spec
+   4. the HTTP handler: one request, histories
+   5. the generated tables pass the checker (vm_compute) -- the reflective step
+   6. the code before the fix (bytes.ToLower) violates the property
+   7. wire-level statement *)
+From Coq Require Import List ZArith Bool Lia.
+From Coq.Strings Require Import Byte.
+Import ListNotations.
 From Zap Require Import Base.Wire C20.Model.
+Open Scope Z_scope.
+
+(* ------------------------------------------------------------------ *)
+(* 1. generic *)
+
+Lemma sx_eqb_refl s : sx_eqb s s = true.
+Proof.
+  revert s. fix IH 1. intros [z|b|l]; cbn.
+  - apply Z.eqb_refl.
+  - now apply bytes_eqb_eq.
+  - induction l as [|a r IHr]; [reflexivity|]. now rewrite IH, IHr.
+Qed.
+
+Lemma bytes_eqb_refl s : bytes_eqb s s = true.
+Proof. now apply bytes_eqb_eq. Qed.
+
+Lemma bytes_eqb_false_ne a b : bytes_eqb a b = false -> a <> b.
+Proof. intros H E. subst b. rewrite bytes_eqb_refl in H. discriminate. Qed.
+
+Lemma assoc_b_in {A} (t : list (bytes * A)) s v : assoc_b t s = Some v -> In (s, v) t.
+Proof.
+  induction t as [|[k w] r IH]; cbn [assoc_b]; [discriminate|].
+  destruct (bytes_eqb k s) eqn:E.
+  - intros [= ->]. apply bytes_eqb_eq in E. subst k. now left.
+  - intros H. right. now apply IH.
+Qed.
+
+Lemma assoc_z_in t l v : assoc_z t l = Some v -> In (l, v) t.
+Proof.
+  induction t as [|[k w] r IH]; cbn [assoc_z]; [discriminate|].
+  destruct (k =? l) eqn:E.
+  - intros [= ->]. apply Z.eqb_eq in E. subst k. now left.
+  - intros H. right. now apply IH.
+Qed.
+
+Lemma opt_z_eqb_eq a b : opt_z_eqb a b = true -> a = b.
+Proof.
+  destruct a as [x|], b as [y|]; cbn; try discriminate; try reflexivity.
+  intros H. apply Z.eqb_eq in H. now subst.
+Qed.
+Lemma opt_bytes_eqb_eq a b : opt_bytes_eqb a b = true -> a = b.
+Proof.
+  destruct a as [x|], b as [y|]; cbn; try discriminate; try reflexivity.
+  intros H. apply bytes_eqb_eq in H. now subst.
+Qed.
+
+(* two switch tables that contain each other denote the same function *)
+Lemma assoc_b_ext (t1 t2 : list (bytes * Z)) :
+  (forall k v, In (k, v) t1 -> assoc_b t2 k = Some v) ->
+  (forall k v, In (k, v) t2 -> assoc_b t1 k = Some v) ->
+  forall s, assoc_b t1 s = assoc_b t2 s.
+Proof.
+  intros H12 H21 s.
+  destruct (assoc_b t1 s) as [v|] eqn:E1.
+  - symmetry. apply H12. now apply assoc_b_in.
+  - destruct (assoc_b t2 s) as [w|] eqn:E2; [|reflexivity].
+    apply assoc_b_in in E2. apply H21 in E2. congruence.
+Qed.
+
+Lemma last_nonempty_default {A} (l : list A) : forall a d d', last (a :: l) d = last (a :: l) d'.
+Proof.
+  induction l as [|b l IH]; intros a d d'; [reflexivity|].
+  change (last (b :: l) d = last (b :: l) d'). apply IH.
+Qed.
+
+Lemma lower_byte_idem b : lower_byte (lower_byte b) = lower_byte b.
+Proof. destruct b; reflexivity. Qed.
+Lemma lower_upper_byte b : lower_byte (upper_byte b) = lower_byte b.
+Proof. destruct b; reflexivity. Qed.
+Lemma ascii_lower_idem s : ascii_lower (ascii_lower s) = ascii_lower s.
+Proof. unfold ascii_lower. rewrite map_map. apply map_ext. exact lower_byte_idem. Qed.
+Lemma ascii_lower_upper s : ascii_lower (ascii_upper s) = ascii_lower s.
+Proof. unfold ascii_lower, ascii_upper. rewrite map_map. apply map_ext. exact lower_upper_byte. Qed.
+
+(* ------------------------------------------------------------------ *)
+(* 2. the specification alone *)
+
+Lemma valid_level_cases l : valid_level l = true -> In l valid_levels.
+Proof.
+  unfold valid_level. rewrite andb_true_iff, !Z.leb_le. intros [Hlo Hhi]. cbn.
+  assert (Hc : -1 = l \/ 0 = l \/ 1 = l \/ 2 = l \/ 3 = l \/ 4 = l \/ 5 = l) by lia.
+  tauto.
+Qed.
+
+Lemma doc_names_valid l s : In (l, s) doc_names -> valid_level l = true.
+Proof.
+  cbn. intros H.
+  repeat (destruct H as [H|H]; [injection H as <- _; reflexivity|]). contradiction.
+Qed.
+
+Lemma doc_names_none l : valid_level l = false -> assoc_z doc_names l = None.
+Proof.
+  intros Hv. destruct (assoc_z doc_names l) as [s|] eqn:E; [|reflexivity].
+  apply assoc_z_in, doc_names_valid in E. congruence.
+Qed.
+
+(* every accepted spelling is already lower case, and names a valid level *)
+Lemma accept_list_lower k v : In (k, v) accept_list -> ascii_lower k = k /\ valid_level v = true.
+Proof.
+  cbn. intros H.
+  repeat (destruct H as [H|H]; [injection H as <- <-; split; reflexivity|]). contradiction.
+Qed.
+
+(* keys of the accept list are distinct: membership determines the lookup *)
+Lemma accept_list_lookup k v : In (k, v) accept_list -> assoc_b accept_list k = Some v.
+Proof.
+  cbn [accept_list In]. intros H.
+  repeat (destruct H as [H|H]; [injection H as <- <-; reflexivity|]). contradiction.
+Qed.
+
+Theorem spec_parse_exact t l : spec_parse t = Some l <-> In (ascii_lower t, l) accept_list.
+Proof.
+  unfold spec_parse. split.
+  - apply assoc_b_in.
+  - apply accept_list_lookup.
+Qed.
+
+Lemma spec_parse_valid t l : spec_parse t = Some l -> valid_level l = true.
+Proof. intros H. apply spec_parse_exact, accept_list_lower in H. tauto. Qed.
+
+Lemma spec_parse_case t t' : ascii_lower t = ascii_lower t' -> spec_parse t = spec_parse t'.
+Proof. unfold spec_parse. now intros ->. Qed.
+
+Lemma spec_parse_lower t : spec_parse (ascii_lower t) = spec_parse t.
+Proof. apply spec_parse_case, ascii_lower_idem. Qed.
+Lemma spec_parse_upper t : spec_parse (ascii_upper t) = spec_parse t.
+Proof. apply spec_parse_case, ascii_lower_upper. Qed.
+
+Lemma spec_roundtrip l : valid_level l = true ->
+  spec_parse (spec_name l) = Some l /\ spec_parse (spec_capital l) = Some l.
+Proof.
+  intros Hv. apply valid_level_cases in Hv. cbn [valid_levels In] in Hv.
+  repeat (destruct Hv as [Hv|Hv]; [subst l; split; vm_compute; reflexivity|]). contradiction.
+Qed.
+
+(* the text printed for a value outside the seven levels is not a level name:
+   an out-of-range level cannot come back as a valid one *)
+Lemma spec_invalid_not_named l : valid_level l = false ->
+  spec_parse (spec_name l) = None /\ spec_parse (spec_capital l) = None.
+Proof.
+  intros Hv. unfold spec_name, spec_capital. rewrite (doc_names_none l Hv).
+  split; reflexivity.
+Qed.
+
+Lemma spec_names_distinct l l' : valid_level l = true ->
+  spec_parse (spec_name l') = Some l -> l' = l.
+Proof.
+  intros Hv H. destruct (valid_level l') eqn:Hv'.
+  - destruct (spec_roundtrip l' Hv') as [H1 _]. congruence.
+  - destruct (spec_invalid_not_named l' Hv') as [H1 _]. congruence.
+Qed.
+
+(* ------------------------------------------------------------------ *)
+(* 3. soundness of the checker *)
+
+Section Checked.
+Variable d : levels.
+Hypothesis Hck : checker d = true.
+
+Lemma ck_unmarshal :
+  forallb (fun '(t, l) => opt_z_eqb (assoc_b accept_list t) (Some l)) (t_unmarshal d) = true /\
+  forallb (fun '(t, l) => opt_z_eqb (assoc_b (t_unmarshal d) t) (Some l)) accept_list = true.
+Proof. revert Hck. unfold checker. rewrite !andb_true_iff. tauto. Qed.
+
+Lemma ck_string :
+  forallb (fun l => opt_bytes_eqb (assoc_z (t_string d) l) (assoc_z doc_names l)) valid_levels = true /\
+  forallb (fun '(l, _) => valid_level l) (t_string d) = true /\
+  t_string_pre d = s_Level_pre /\ t_string_post d = [x29].
+Proof. revert Hck. unfold checker. rewrite !andb_true_iff, !bytes_eqb_eq. tauto. Qed.
+
+Lemma ck_capital :
+  forallb (fun l => opt_bytes_eqb (assoc_z (t_capital d) l) (option_map ascii_upper (assoc_z doc_names l))) valid_levels = true /\
+  forallb (fun '(l, _) => valid_level l) (t_capital d) = true /\
+  t_capital_pre d = s_LEVEL_pre /\ t_capital_post d = [x29].
+Proof. revert Hck. unfold checker. rewrite !andb_true_iff, !bytes_eqb_eq. tauto. Qed.
+
+Lemma ck_range : t_bits d = 8 /\ t_min d = -1 /\ t_max d = 5 /\ t_invalid d = 6.
+Proof. revert Hck. unfold checker. rewrite !andb_true_iff, !Z.eqb_eq. tauto. Qed.
+
+(* unmarshalText's switch is the documented acceptance table *)
+Lemma unmarshal_table_spec s : assoc_b (t_unmarshal d) s = assoc_b accept_list s.
+Proof.
+  destruct ck_unmarshal as [H1 H2]. rewrite forallb_forall in H1, H2.
+  apply assoc_b_ext.
+  - intros k v Hin. exact (opt_z_eqb_eq _ _ (H1 (k, v) Hin)).
+  - intros k v Hin. exact (opt_z_eqb_eq _ _ (H2 (k, v) Hin)).
+Qed.
+
+Lemma table_outside (t : list (Z * bytes)) l :
+  forallb (fun '(l, _) => valid_level l) t = true -> valid_level l = false -> assoc_z t l = None.
+Proof.
+  intros Hall Hv. destruct (assoc_z t l) as [s|] eqn:E; [|reflexivity].
+  apply assoc_z_in in E. rewrite forallb_forall in Hall. specialize (Hall (l, s) E).
+  cbn in Hall. congruence.
+Qed.
+
+Lemma string_table_spec l : assoc_z (t_string d) l = assoc_z doc_names l.
+Proof.
+  destruct ck_string as (H1 & H2 & _ & _). destruct (valid_level l) eqn:Hv.
+  - rewrite forallb_forall in H1. apply opt_bytes_eqb_eq, H1, valid_level_cases, Hv.
+  - rewrite (table_outside _ l H2 Hv), (doc_names_none l Hv). reflexivity.
+Qed.
+Lemma capital_table_spec l : assoc_z (t_capital d) l = option_map ascii_upper (assoc_z doc_names l).
+Proof.
+  destruct ck_capital as (H1 & H2 & _ & _). destruct (valid_level l) eqn:Hv.
+  - rewrite forallb_forall in H1. apply opt_bytes_eqb_eq, H1, valid_level_cases, Hv.
+  - rewrite (table_outside _ l H2 Hv), (doc_names_none l Hv). reflexivity.
+Qed.
+
+Theorem level_string_spec l : level_string d l = spec_name l.
+Proof.
+  destruct ck_string as (_ & _ & Hpre & Hpost).
+  unfold level_string, spec_name. rewrite string_table_spec, Hpre, Hpost. reflexivity.
+Qed.
+Theorem level_capital_spec l : level_capital d l = spec_capital l.
+Proof.
+  destruct ck_capital as (_ & _ & Hpre & Hpost).
+  unfold level_capital, spec_capital. rewrite capital_table_spec, Hpre, Hpost.
+  destruct (assoc_z doc_names l); reflexivity.
+Qed.
+Lemma level_marshal_text_spec l : level_marshal_text d l = spec_name l.
+Proof. apply level_string_spec. Qed.
+
+(* UnmarshalText = the specification, for every text and every prior target value *)
+Theorem unmarshal_text_spec tgt t : level_unmarshal_text d tgt t = spec_result tgt t.
+Proof.
+  unfold level_unmarshal_text, unmarshal_step, spec_result, spec_parse.
+  rewrite !unmarshal_table_spec.
+  destruct (assoc_b accept_list t) as [v|] eqn:E.
+  - apply assoc_b_in in E. destruct (accept_list_lower _ _ E) as [Hl _].
+    rewrite Hl. apply accept_list_lookup in E. rewrite E. reflexivity.
+  - destruct (assoc_b accept_list (ascii_lower t)); reflexivity.
+Qed.
+
+Lemma level_set_spec tgt t : level_set d tgt t = spec_result tgt t.
+Proof. apply unmarshal_text_spec. Qed.
+Lemma parse_level_spec t : parse_level d t = spec_result 0 t.
+Proof. apply unmarshal_text_spec. Qed.
+Lemma atomic_unmarshal_text_spec a t :
+  atomic_unmarshal_text d a t = spec_result (match a with Some v => v | None => 0 end) t.
+Proof.
+  unfold atomic_unmarshal_text. rewrite unmarshal_text_spec. unfold spec_result.
+  destruct (spec_parse t); reflexivity.
+Qed.
+Lemma parse_atomic_level_spec t : parse_atomic_level d t = spec_result 0 t.
+Proof.
+  unfold parse_atomic_level. rewrite parse_level_spec. unfold spec_result.
+  destruct (spec_parse t); reflexivity.
+Qed.
+
+(* every textual entry point is UnmarshalText on the appropriate target *)
+Theorem entry_points_thm tgt t :
+  level_set d tgt t = level_unmarshal_text d tgt t /\
+  parse_level d t = level_unmarshal_text d 0 t /\
+  atomic_unmarshal_text d (Some tgt) t = level_unmarshal_text d tgt t /\
+  atomic_unmarshal_text d None t = level_unmarshal_text d 0 t /\
+  parse_atomic_level d t = level_unmarshal_text d 0 t.
+Proof.
+  rewrite level_set_spec, parse_level_spec, !atomic_unmarshal_text_spec, parse_atomic_level_spec,
+          !unmarshal_text_spec. auto.
+Qed.
+
+(* ---- the property's clauses about texts ---- *)
+
+Theorem roundtrip_thm l tgt : valid_level l = true ->
+  level_unmarshal_text d tgt (level_string d l) = (l, true) /\
+  level_unmarshal_text d tgt (level_capital d l) = (l, true) /\
+  level_unmarshal_text d tgt (level_marshal_text d l) = (l, true).
+Proof.
+  intros Hv. rewrite level_marshal_text_spec, level_string_spec, level_capital_spec, !unmarshal_text_spec.
+  unfold spec_result. destruct (spec_roundtrip l Hv) as [-> ->]. auto.
+Qed.
+
+Theorem case_insensitive_thm tgt t t' : ascii_lower t = ascii_lower t' ->
+  level_unmarshal_text d tgt t = level_unmarshal_text d tgt t'.
+Proof.
+  intros H. rewrite !unmarshal_text_spec. unfold spec_result. now rewrite (spec_parse_case t t' H).
+Qed.
+
+Theorem any_case_of_name_thm l tgt t : valid_level l = true ->
+  ascii_lower t = level_string d l -> level_unmarshal_text d tgt t = (l, true).
+Proof.
+  intros Hv H. rewrite unmarshal_text_spec. unfold spec_result.
+  rewrite <- spec_parse_lower, H, level_string_spec. now destruct (spec_roundtrip l Hv) as [-> _].
+Qed.
+
+Theorem accept_exact_thm tgt t :
+  (forall l, level_unmarshal_text d tgt t = (l, true) <-> In (ascii_lower t, l) accept_list) /\
+  ((forall l, ~ In (ascii_lower t, l) accept_list) -> level_unmarshal_text d tgt t = (tgt, false)).
+Proof.
+  rewrite unmarshal_text_spec. unfold spec_result. split.
+  - intros l. rewrite <- spec_parse_exact. destruct (spec_parse t) as [v|].
+    + split; [intros [= ->]; reflexivity|intros [= ->]; reflexivity].
+    + split; discriminate.
+  - intros Hno. destruct (spec_parse t) as [v|] eqn:E; [|reflexivity].
+    apply spec_parse_exact in E. now apply Hno in E.
+Qed.
+
+Theorem reject_unchanged_thm tgt t l ok :
+  level_unmarshal_text d tgt t = (l, ok) -> ok = false -> l = tgt /\ spec_parse t = None.
+Proof.
+  rewrite unmarshal_text_spec. unfold spec_result.
+  destruct (spec_parse t); intros [= <- <-] Hok; [discriminate|auto].
+Qed.
+
+Theorem empty_info_thm tgt : level_unmarshal_text d tgt [] = (0, true).
+Proof. rewrite unmarshal_text_spec. reflexivity. Qed.
+
+Theorem invalid_level_text_rejected_thm l tgt : valid_level l = false ->
+  level_unmarshal_text d tgt (level_string d l) = (tgt, false) /\
+  level_unmarshal_text d tgt (level_capital d l) = (tgt, false).
+Proof.
+  intros Hv. rewrite level_string_spec, level_capital_spec, !unmarshal_text_spec. unfold spec_result.
+  destruct (spec_invalid_not_named l Hv) as [-> ->]. auto.
+Qed.
+
+(* ------------------------------------------------------------------ *)
+(* 4. the HTTP handler *)
+
+Definition all_named (texts : list bytes) : bool := forallb (fun t => is_some (spec_parse t)) texts.
+
+Lemma json_texts_spec texts : forall p err,
+  snd (json_texts d p err texts) = err || negb (all_named texts) /\
+  (snd (json_texts d p err texts) = false ->
+   fst (json_texts d p err texts) = match rev texts with [] => p | t :: _ => spec_parse t end).
+Proof.
+  induction texts as [|t r IH]; intros p err.
+  - cbn. rewrite orb_false_r. auto.
+  - cbn [json_texts]. rewrite unmarshal_text_spec. unfold spec_result.
+    set (tgt := match p with Some v => v | None => 0 end).
+    destruct (spec_parse t) as [v|] eqn:Et.
+    + destruct (IH (Some v) (err || negb true)) as [IH1 IH2]. split.
+      * rewrite IH1. cbn [all_named forallb]. fold (all_named r). rewrite Et. cbn. now rewrite orb_false_r.
+      * intros Hs. rewrite (IH2 Hs). cbn [rev].
+        destruct (rev r) as [|x xs] eqn:Er; cbn [app]; [now rewrite Et|reflexivity].
+    + destruct (IH (Some tgt) (err || negb false)) as [IH1 IH2]. split.
+      * rewrite IH1. cbn [all_named forallb]. rewrite Et. cbn. now rewrite !orb_true_r.
+      * intros Hs. rewrite IH1 in Hs. cbn in Hs. rewrite orb_true_r in Hs. discriminate.
+Qed.
+
+Lemma decode_put_json_spec j :
+  decode_put_json d j =
+  match j with
+  | JErr => DBad
+  | JOk texts final_nil =>
+      if final_nil then DBad
+      else if all_named texts then
+        match rev texts with
+        | [] => DBad
+        | t :: _ => match spec_parse t with Some l => DLevel l | None => DBad end
+        end
+      else DBad
+  end.
+Proof.
+  destruct j as [|texts fin]; [reflexivity|]. unfold decode_put_json.
+  destruct (json_texts_spec texts None false) as [H1 H2].
+  destruct (json_texts d None false texts) as [p e]. cbn [fst snd] in H1, H2.
+  cbn [orb] in H1. subst e.
+  destruct (all_named texts) eqn:Ea; cbn [negb].
+  - rewrite (H2 eq_refl). destruct fin; [reflexivity|].
+    destruct (rev texts) as [|t ts]; [reflexivity|]. destruct (spec_parse t); reflexivity.
+  - destruct fin; reflexivity.
+Qed.
+
+Definition of_named (o : option Z) : decoded := match o with Some l => DLevel l | None => DBad end.
+
+(* the decoding of a PUT request succeeds exactly when the request names a valid level, with that level *)
+Theorem decode_put_request_spec r : bytes_eqb (r_method r) s_put = true ->
+  decode_put_request d r = of_named (spec_names_level r).
+Proof.
+  intros Hput. unfold decode_put_request, spec_names_level. rewrite Hput.
+  destruct (bytes_eqb (r_ctype r) s_form_ctype).
+  - unfold decode_put_url. destruct (is_nil (form_value (r_form r) s_level)); [reflexivity|].
+    rewrite unmarshal_text_spec. unfold spec_result.
+    destruct (spec_parse (form_value (r_form r) s_level)); reflexivity.
+  - rewrite decode_put_json_spec. destruct (r_json r) as [|texts fin]; [reflexivity|].
+    destruct fin; [reflexivity|]. fold (all_named texts).
+    destruct (all_named texts); [|reflexivity].
+    destruct (rev texts) as [|t ts]; [reflexivity|]. destruct (spec_parse t); reflexivity.
+Qed.
+
+Lemma get_is_not_put m : bytes_eqb m s_get = true -> bytes_eqb m s_put = false.
+Proof. intros H. apply bytes_eqb_eq in H. subst m. reflexivity. Qed.
+
+Lemma names_level_put r l : spec_names_level r = Some l -> bytes_eqb (r_method r) s_put = true.
+Proof. unfold spec_names_level. destruct (bytes_eqb (r_method r) s_put); [reflexivity|discriminate]. Qed.
+
+Lemma names_level_valid r l : spec_names_level r = Some l -> valid_level l = true.
+Proof.
+  unfold spec_names_level. destruct (bytes_eqb (r_method r) s_put); [|discriminate].
+  destruct (bytes_eqb (r_ctype r) s_form_ctype).
+  - destruct (is_nil (form_value (r_form r) s_level)); [discriminate|]. apply spec_parse_valid.
+  - destruct (r_json r) as [|texts fin]; [discriminate|]. destruct fin; [discriminate|].
+    destruct (forallb _ texts); [|discriminate].
+    destruct (rev texts) as [|t ts]; [discriminate|]. apply spec_parse_valid.
+Qed.
+
+(* the complete description of one request *)
+Theorem serve_spec cur r :
+  serve d cur r =
+  if bytes_eqb (r_method r) s_get then
+    {| status := 200; kind := 1; payload := spec_payload cur; after := cur; mask := enabled_mask cur |}
+  else match spec_names_level r with
+       | Some l => {| status := 200; kind := 1; payload := spec_payload l; after := l; mask := enabled_mask l |}
+       | None => {| status := if bytes_eqb (r_method r) s_put then 400 else 405;
+                    kind := 2; payload := []; after := cur; mask := enabled_mask cur |}
+       end.
+Proof.
+  unfold serve, level_payload, spec_payload. rewrite !level_marshal_text_spec.
+  destruct (bytes_eqb (r_method r) s_get) eqn:Hg; [reflexivity|].
+  destruct (bytes_eqb (r_method r) s_put) eqn:Hp.
+  - rewrite (decode_put_request_spec r Hp).
+    destruct (spec_names_level r) as [l|]; cbn [of_named]; rewrite ?level_marshal_text_spec; reflexivity.
+  - unfold spec_names_level. rewrite Hp. reflexivity.
+Qed.
+
+Theorem step_ok_thm cur r : step_ok cur r (serve d cur r) = true.
+Proof.
+  rewrite serve_spec. unfold step_ok.
+  destruct (bytes_eqb (r_method r) s_get) eqn:Hg; cbn [status kind payload after mask].
+  - now rewrite bytes_eqb_refl, !Z.eqb_refl.
+  - destruct (spec_names_level r) as [l|]; cbn [status kind payload after mask].
+    + now rewrite bytes_eqb_refl, !Z.eqb_refl.
+    + rewrite !Z.eqb_refl. destruct (bytes_eqb (r_method r) s_put); reflexivity.
+Qed.
+
+Lemma after_serve cur r :
+  after (serve d cur r) = match spec_names_level r with Some l => l | None => cur end.
+Proof.
+  rewrite serve_spec. destruct (bytes_eqb (r_method r) s_get) eqn:Hg.
+  - unfold spec_names_level. rewrite (get_is_not_put _ Hg). reflexivity.
+  - destruct (spec_names_level r); reflexivity.
+Qed.
+
+(* the level changes only on a PUT that names a valid level, and then to exactly that level *)
+Theorem http_step_thm cur r :
+  let o := serve d cur r in
+  (forall l, spec_names_level r = Some l ->
+     status o = 200 /\ after o = l /\ payload o = spec_payload l /\ valid_level l = true) /\
+  (spec_names_level r = None ->
+     after o = cur /\
+     (bytes_eqb (r_method r) s_get = true -> status o = 200 /\ payload o = spec_payload cur) /\
+     (bytes_eqb (r_method r) s_get = false ->
+        status o = (if bytes_eqb (r_method r) s_put then 400 else 405) /\ kind o = 2)) /\
+  (after o <> cur -> bytes_eqb (r_method r) s_put = true /\ spec_names_level r = Some (after o)) /\
+  mask o = enabled_mask (after o).
+Proof.
+  cbn zeta. rewrite serve_spec. repeat split.
+  - destruct (bytes_eqb (r_method r) s_get) eqn:Hg.
+    + apply names_level_put in H. rewrite (get_is_not_put _ Hg) in H. discriminate.
+    + rewrite H. reflexivity.
+  - destruct (bytes_eqb (r_method r) s_get) eqn:Hg.
+    + apply names_level_put in H. rewrite (get_is_not_put _ Hg) in H. discriminate.
+    + rewrite H. reflexivity.
+  - destruct (bytes_eqb (r_method r) s_get) eqn:Hg.
+    + apply names_level_put in H. rewrite (get_is_not_put _ Hg) in H. discriminate.
+    + rewrite H. reflexivity.
+  - exact (names_level_valid r l H).
+  - destruct (bytes_eqb (r_method r) s_get); [reflexivity|]. rewrite H. reflexivity.
+  - rewrite H0. reflexivity.
+  - rewrite H0. reflexivity.
+  - rewrite H0, H. reflexivity.
+  - rewrite H0, H. reflexivity.
+  - destruct (bytes_eqb (r_method r) s_get) eqn:Hg; cbn [after] in H; [congruence|].
+    destruct (spec_names_level r) as [l|] eqn:En; cbn [after] in H; [|congruence].
+    exact (names_level_put r l En).
+  - destruct (bytes_eqb (r_method r) s_get) eqn:Hg; cbn [after] in H |- *; [congruence|].
+    destruct (spec_names_level r) as [l|] eqn:En; cbn [after] in H |- *; [reflexivity|congruence].
+  - destruct (bytes_eqb (r_method r) s_get); [reflexivity|].
+    destruct (spec_names_level r); reflexivity.
+Qed.
+
+(* histories *)
+Lemma final_level_spec rs : forall cur, final_level d cur rs = spec_final cur rs.
+Proof.
+  unfold final_level, spec_final. induction rs as [|r rest IH]; intros cur; [reflexivity|].
+  cbn [fold_left]. rewrite after_serve. apply IH.
+Qed.
+
+Lemma run_length rs : forall cur, length (run d cur rs) = length rs.
+Proof. induction rs as [|r rest IH]; intros cur; cbn [run length]; [reflexivity|]. now rewrite IH. Qed.
+
+(* every response of a history is correct for the level in force when its request arrived *)
+Fixpoint hist_ok (cur : Z) (rs : list request) (os : list resp) : Prop :=
+  match rs, os with
+  | [], [] => True
+  | r :: rs', o :: os' => step_ok cur r o = true /\ hist_ok (after o) rs' os'
+  | _, _ => False
+  end.
+
+Lemma run_hist_ok rs : forall cur, hist_ok cur rs (run d cur rs).
+Proof.
+  induction rs as [|r rest IH]; intros cur; cbn [run hist_ok]; [exact I|].
+  split; [apply step_ok_thm|apply IH].
+Qed.
+
+Lemma last_after_run rs : forall cur,
+  last (map after (run d cur rs)) cur = final_level d cur rs.
+Proof.
+  unfold final_level. induction rs as [|r rest IH]; intros cur; [reflexivity|].
+  cbn [run map fold_left]. rewrite <- IH.
+  destruct (run d (after (serve d cur r)) rest) as [|o os] eqn:E; [reflexivity|].
+  cbn [map]. change (last (after o :: map after os) cur = last (after o :: map after os) (after (serve d cur r))).
+  apply last_nonempty_default.
+Qed.
+
+Theorem http_history_thm init rs :
+  hist_ok init rs (run d init rs) /\
+  final_level d init rs = spec_final init rs /\
+  last (map after (run d init rs)) init = spec_final init rs /\
+  (spec_final init rs = init \/ valid_level (spec_final init rs) = true).
+Proof.
+  split; [apply run_hist_ok|]. split; [apply final_level_spec|].
+  split; [rewrite last_after_run; apply final_level_spec|].
+  unfold spec_final. revert init. induction rs as [|r rest IH]; intros init; [now left|].
+  cbn [fold_left]. destruct (spec_names_level r) as [l|] eqn:En.
+  - right. destruct (IH l) as [-> | Hv]; [exact (names_level_valid r l En)|exact Hv].
+  - apply IH.
+Qed.
+
+(* a history in which no PUT names a level leaves the level alone *)
+Lemma history_unchanged_thm init rs :
+  (forall r, In r rs -> spec_names_level r = None) -> final_level d init rs = init.
+Proof.
+  rewrite final_level_spec. unfold spec_final. revert init.
+  induction rs as [|r rest IH]; intros init Hall; [reflexivity|].
+  cbn [fold_left]. rewrite (Hall r (or_introl eq_refl)). apply IH.
+  intros r' Hin. apply Hall. now right.
+Qed.
+
+(* wire level, parametrically in the tables *)
+Lemma dec_enc_resp o : dec_resp (enc_resp o) = o.
+Proof. destruct o; reflexivity. Qed.
+
+Lemma spec_hist_run rs : forall cur, spec_hist cur rs (map enc_resp (run d cur rs)) = true.
+Proof.
+  induction rs as [|r rest IH]; intros cur; [reflexivity|].
+  cbn [run map spec_hist]. rewrite dec_enc_resp, step_ok_thm. cbn [andb]. apply IH.
+Qed.
+
+Lemma model_level_expect l tgt : model_level d l tgt = expect_level l tgt.
+Proof.
+  unfold model_level, expect_level.
+  rewrite level_marshal_text_spec, level_string_spec, level_capital_spec, !unmarshal_text_spec. reflexivity.
+Qed.
+
+Lemma model_text_expect tgt t jt yt : model_text d tgt t jt yt = expect_text tgt t jt yt.
+Proof.
+  unfold model_text, expect_text.
+  destruct jt as [j|], yt as [y|]; cbn [opt_rt];
+    rewrite ?level_set_spec, ?parse_level_spec, ?parse_atomic_level_spec, ?atomic_unmarshal_text_spec,
+            ?unmarshal_text_spec; reflexivity.
+Qed.
+
+End Checked.
+
+(* ------------------------------------------------------------------ *)
+(* 5. the reflective step: the tables regenerated from the source pass the checker *)
+
+Lemma G_checked : checker G = true.
+Proof. vm_compute. reflexivity. Qed.
+
+(* ------------------------------------------------------------------ *)
+(* 6. the code before the fix.  bytes.ToLower is Unicode-aware: U+0130 lower-cases to ASCII i
+   (the harness reports bytes.ToLower of the witness on every run as
+   !INFO go_bytes_ToLower_U+0130nfo=696e666f). *)
+
+Definition orig_witness_text : bytes := [xc4; xb0; x6e; x66; x6f].      (* U+0130 n f o *)
+Definition orig_witness_lowered : bytes := [x69; x6e; x66; x6f].        (* info *)
+
+(* full statement for the original code, relative to what bytes.ToLower answers *)
+Definition reject_full_orig (go_to_lower : bytes -> bytes) : Prop :=
+  forall tgt t, level_unmarshal_text_orig G tgt t (go_to_lower t) = spec_result tgt t.
+
+Lemma reject_full_orig_refuted go_to_lower :
+  go_to_lower orig_witness_text = orig_witness_lowered -> ~ reject_full_orig go_to_lower.
+Proof.
+  intros Hlow Hfull. specialize (Hfull 42 orig_witness_text). rewrite Hlow in Hfull.
+  vm_compute in Hfull. discriminate.
+Qed.
+
+Lemma orig_accepts_non_ascii :
+  level_unmarshal_text_orig G 42 orig_witness_text orig_witness_lowered = (0, true) /\
+  spec_result 42 orig_witness_text = (42, false) /\
+  level_unmarshal_text G 42 orig_witness_text = (42, false).
+Proof. vm_compute. auto. Qed.
+
+(* on ASCII text bytes.ToLower is ASCII lower-casing, and there the two versions agree *)
+Lemma orig_agrees_on_ascii d tgt t :
+  level_unmarshal_text_orig d tgt t (ascii_lower t) = level_unmarshal_text d tgt t.
+Proof. reflexivity. Qed.
+
+(* ------------------------------------------------------------------ *)
+(* 7. wire *)
+
+Theorem spec_model i : wf i = true -> spec i (model i) = true.
+Proof.
+  unfold wf, spec, model. set (k := sx_z (sx_nth i 0)).
+  rewrite andb_true_iff, !Z.leb_le. intros [Hlo Hhi].
+  assert (Hk : k = 0 \/ k = 1 \/ k = 2) by lia.
+  destruct Hk as [-> | [-> | ->]].
+  - rewrite (model_level_expect G G_checked). apply sx_eqb_refl.
+  - rewrite (model_text_expect G G_checked). apply sx_eqb_refl.
+  - cbn [sx_l]. apply (spec_hist_run G G_checked).
+Qed.
